@@ -475,3 +475,191 @@ pub fn compare_units(got: &[Unit], want: &[XUnit], check_values: bool) -> Result
     }
     Ok(())
 }
+
+// ------------------------------------------------------------------------------------------
+// per-command expectations for a whole conversation
+
+use crate::conv::{Cmd, Conversation};
+
+#[derive(Clone, Debug, Serialize)]
+pub enum Expect {
+    /// result units of a writer program
+    Units(Vec<XUnit>),
+    PrepareOk { id: u32, params: Vec<ColSpec>, cols: Vec<ColSpec> },
+    /// single ERR
+    Err { code: u16, msg: Vec<u8> },
+    /// single OK (content not asserted beyond being OK)
+    OkPlain,
+    /// one conformant response of a kind legal for the command; content not asserted
+    AnyLegal,
+    /// the command expects no reply
+    Nothing,
+    /// the connection is expected to end here (invalid statement id etc.)
+    ConnectionEnds,
+}
+
+pub fn is_builtin_probe(q: &[u8]) -> bool {
+    q.starts_with(b"SELECT @@") || q.starts_with(b"select @@")
+}
+
+pub fn is_use_stmt(q: &[u8]) -> bool {
+    q.starts_with(b"USE ") || q.starts_with(b"use ")
+}
+
+/// Walk the conversation with the model of which command consumes which scripted action.
+pub fn expectations(c: &Conversation) -> Vec<Expect> {
+    let mut actions = c.actions.iter();
+    let mut live: std::collections::HashSet<u32> = Default::default();
+    let mut out = Vec::new();
+    let mut ended = false;
+    for sc in &c.cmds {
+        if ended {
+            out.push(Expect::ConnectionEnds);
+            continue;
+        }
+        let e = match &sc.cmd {
+            Cmd::Query { text } => {
+                let t = text.bytes();
+                if is_builtin_probe(&t) {
+                    Expect::AnyLegal
+                } else if is_use_stmt(&t) {
+                    if c.default_init {
+                        Expect::OkPlain
+                    } else {
+                        match actions.next() {
+                            Some(Action::Init(InitProg::Ok)) => Expect::OkPlain,
+                            Some(Action::Init(InitProg::Error { kind, msg })) => Expect::Err { code: *kind, msg: msg.clone() },
+                            _ => Expect::AnyLegal,
+                        }
+                    }
+                } else {
+                    match actions.next() {
+                        Some(Action::Result(p)) => Expect::Units(expected_units(p)),
+                        _ => Expect::AnyLegal,
+                    }
+                }
+            }
+            Cmd::InitDb { .. } => {
+                if c.default_init {
+                    Expect::OkPlain
+                } else {
+                    match actions.next() {
+                        Some(Action::Init(InitProg::Ok)) => Expect::OkPlain,
+                        Some(Action::Init(InitProg::Error { kind, msg })) => Expect::Err { code: *kind, msg: msg.clone() },
+                        _ => Expect::AnyLegal,
+                    }
+                }
+            }
+            Cmd::Prepare { .. } => match actions.next() {
+                Some(Action::Prepare(PrepProg::Reply { id, params, cols })) => {
+                    live.insert(*id);
+                    Expect::PrepareOk { id: *id, params: params.clone(), cols: cols.clone() }
+                }
+                Some(Action::Prepare(PrepProg::Error { kind, msg })) => Expect::Err { code: *kind, msg: msg.clone() },
+                _ => Expect::AnyLegal,
+            },
+            Cmd::Execute { id, .. } => {
+                if live.contains(id) {
+                    match actions.next() {
+                        Some(Action::Result(p)) => Expect::Units(expected_units(p)),
+                        _ => Expect::AnyLegal,
+                    }
+                } else {
+                    ended = true;
+                    Expect::ConnectionEnds
+                }
+            }
+            Cmd::LongData { id, .. } => {
+                if live.contains(id) {
+                    Expect::Nothing
+                } else {
+                    ended = true;
+                    Expect::ConnectionEnds
+                }
+            }
+            Cmd::Close { id } => {
+                live.remove(id);
+                Expect::Nothing
+            }
+            Cmd::Ping => Expect::OkPlain,
+            Cmd::FieldList { .. } => Expect::AnyLegal,
+            Cmd::Quit => {
+                ended = true;
+                Expect::Nothing
+            }
+            Cmd::Raw { .. } => Expect::AnyLegal,
+        };
+        out.push(e);
+    }
+    out
+}
+
+pub fn coldefs_match(got: &[ColDef], want: &[ColSpec]) -> Result<(), String> {
+    if got.len() != want.len() {
+        return Err(format!("{} column definitions received, {} declared", got.len(), want.len()));
+    }
+    for (i, (g, w)) in got.iter().zip(want).enumerate() {
+        if g.table != w.table.as_bytes() {
+            return Err(format!("column {}: table {:?} received, {:?} declared", i, String::from_utf8_lossy(&g.table), w.table));
+        }
+        if g.name != w.name.as_bytes() {
+            return Err(format!("column {}: name {:?} received, {:?} declared", i, String::from_utf8_lossy(&g.name), w.name));
+        }
+        if g.coltype != w.coltype {
+            return Err(format!("column {}: type {} received, {} declared", i, g.coltype, w.coltype));
+        }
+        if g.flags != w.flags {
+            return Err(format!("column {}: flags {:#06x} received, {:#06x} declared", i, g.flags, w.flags));
+        }
+    }
+    Ok(())
+}
+
+/// Does the decoded response match the expectation?  `values`: compare cell values and
+/// column metadata too (C06/C07/C09 do; C03 only needs shape).
+pub fn check_reply(e: &Expect, r: &Response, values: bool) -> Result<(), String> {
+    match e {
+        Expect::Nothing | Expect::ConnectionEnds => {
+            if r.n_msgs != 0 {
+                return Err(format!("{} packets sent for a command that expects no reply", r.n_msgs));
+            }
+            Ok(())
+        }
+        Expect::AnyLegal => Ok(()),
+        Expect::OkPlain => match &r.units[..] {
+            [Unit::Ok(o)] if o.status & STATUS_MORE_RESULTS == 0 => Ok(()),
+            other => Err(format!("expected a single OK, got [{}]", other.iter().map(|u| u.brief()).collect::<Vec<_>>().join(", "))),
+        },
+        Expect::Err { code, msg } => match &r.units[..] {
+            [Unit::Err(e)] if e.code == *code && &e.msg == msg => Ok(()),
+            other => Err(format!("expected ERR({}), got [{}]", code, other.iter().map(|u| u.brief()).collect::<Vec<_>>().join(", "))),
+        },
+        Expect::PrepareOk { id, params, cols } => match &r.units[..] {
+            [Unit::PrepareOk { ok, params: gp, cols: gc }] => {
+                if ok.id != *id {
+                    return Err(format!("PREPARE_OK statement id {} but the shim replied {}", ok.id, id));
+                }
+                if ok.nparams as usize != params.len() || ok.ncols as usize != cols.len() {
+                    return Err(format!("PREPARE_OK counts (params {}, cols {}) but the shim declared ({}, {})", ok.nparams, ok.ncols, params.len(), cols.len()));
+                }
+                if values {
+                    coldefs_match(gp, params).map_err(|e| format!("prepare parameter definitions: {}", e))?;
+                    coldefs_match(gc, cols).map_err(|e| format!("prepare column definitions: {}", e))?;
+                }
+                Ok(())
+            }
+            other => Err(format!("expected PREPARE_OK, got [{}]", other.iter().map(|u| u.brief()).collect::<Vec<_>>().join(", "))),
+        },
+        Expect::Units(want) => {
+            compare_units(&r.units, want, values)?;
+            if values {
+                for (g, w) in r.units.iter().zip(want) {
+                    if let (Unit::Set { cols, .. }, XUnit::Set { cols: wc, .. }) = (g, w) {
+                        coldefs_match(cols, wc)?;
+                    }
+                }
+            }
+            Ok(())
+        }
+    }
+}
